@@ -1371,8 +1371,13 @@ def step(state: State, op, avoid, stats):
                 raise Violation(f"index_op_not_bit_exact:{name}", f"{call.note}: image {i}: retained samples are not exact copies of the "
                                                                   f"input samples at offset {r.exact}")
     # interpolating operations must not leave the data untouched when the grid moved
+    # (only where every returned sample lies inside the original field of view and the ramp really varies along every grid axis:
+    # samples extrapolated by border padding, or a ramp that is constant along the axis that moved, legitimately repeat the input)
     if name in ("resample", "resize", "sample") and t.shape == t_prev.shape and torch.equal(t, t_prev):
         for it, ni in zip(src, new_items):
+            varies = bool(np.all(np.abs(np.atleast_2d(np.asarray(it.A, dtype=np.float64)) @ it.model.A).max(axis=0) > 1e-6))
+            if not (bool(np.all(ni.ok)) and varies):
+                continue
             if float(np.abs(ni.model.A - it.model.A).max()) > 1e-4 * float(np.abs(it.model.A).max()) or \
                     float(np.abs(ni.model.o - it.model.o).max()) > 1e-4 * float(it.model.s.min()):
                 raise Violation(f"data_unchanged_but_grid_changed:{name}", f"{call.note}: returned the input data with a different grid "
